@@ -45,8 +45,7 @@ JudgeDur(e) ==
 \* instants after 2038-01-19 do not fit TLC's integers: such events count seconds from a base instant that is a whole number
 \* of weeks after the epoch (weekday, day boundaries and offsets are unaffected), given as two 16-bit limbs <<high, low>>
 BaseOf(e) == IF "base" \in DOMAIN e THEN e.base ELSE <<0, 0>>
-RelFits(b4, base) == LET d == (b4[4] * 256 + b4[3]) - base[1] IN d >= -32767 /\ d <= 32766
-Rel(b4, base) == ((b4[4] * 256 + b4[3]) - base[1]) * 65536 + ((b4[2] * 256 + b4[1]) - base[2])
+\* (RelFits / Rel: Schedule.tla)
 
 JudgeClock(e) ==
   IF StrictClock(e.text)
